@@ -128,6 +128,10 @@ class WebSocketDataQueue:
     async def read(self) -> WSMessage:
         if not self._buffer and not self._eof:
             assert not self._waiter
+            # Only an incomplete frame can have paused reading while the
+            # buffer is empty; it cannot complete unless reading resumes.
+            if self._protocol._reading_paused:
+                self._protocol.resume_reading()
             self._waiter = self._loop.create_future()
             try:
                 await self._waiter
@@ -528,9 +532,16 @@ class WebSocketReader:
                     if (
                         self._max_fragments
                         and len(self._payload_fragments) > self._max_fragments
-                        and not self.queue._protocol._reading_paused
                     ):
-                        self.queue._protocol.pause_reading()
+                        # Merge the pieces so their number stays bounded, and
+                        # only apply backpressure while nobody is waiting for
+                        # the message: a waiting reader would never resume.
+                        self._payload_fragments = [b"".join(self._payload_fragments)]
+                        if (
+                            self.queue._waiter is None
+                            and not self.queue._protocol._reading_paused
+                        ):
+                            self.queue._protocol.pause_reading()
                     break
 
                 payload: bytes | bytearray
